@@ -138,9 +138,6 @@ end MG.C13
 namespace MG.C13
 open MG.Eng MG.ND
 
-/-- `x.null_grad()` -/
-def nullGrad (h : Heap) (x : Nat) : Heap := h.modT x ({ · with grad := none, viewGrad := none })
-
 theorem duplicate_no_children (fuel : Nat) (h : Heap) (live : List Nat) (bp t : Nat) (nodes : List Node)
     (hc : liveChildren h live t = []) : duplicate (fuel + 1) h live bp t nodes = .ok (h, nodes) := by
   simp [duplicate, familyChildren, hc]
